@@ -102,6 +102,22 @@ Check quadratic_backward_error_local : forall (eps : R) (O : RoundOps) (a b c : 
 Print Assumptions quadratic_backward_error_local.
 (* non-vacuity: quadratic_residual_local_nonvacuous, quadratic_residual_local_bounded_range_nonvacuous above *)
 
+(* ... and both returned values at once (the statement of quadratic_simultaneous_backward_error below) from the local hypotheses *)
+Theorem quadratic_simultaneous_backward_error_local : forall (eps : R) (O : RoundOps) (a b c : C),
+  (0 <= eps <= / 100)%R -> a <> RtoC 0 -> quad_ops_ok eps O a b c ->
+  exists r0 r1 db dc : C, poly_solve (RoundRAo eps O) [c; b; a] false = Ok ([r0; r1], []) /\
+    (forall x : C, (a * x * x + (b + db) * x + (c + dc))%C = (a * (x - r0) * (x - r1))%C) /\
+    (Cmod dc <= (2 * eps + eps * eps) * Cmod c)%R /\
+    (Cmod db * Cmod db <= (16 * eps) * (16 * eps) * (Cmod b * Cmod b + 4 * (Cmod a * Cmod c)))%R.
+Proof. intros eps O a b c. exact (quadratic_simultaneous_local_lemma eps O a b c). Qed.
+Check quadratic_simultaneous_backward_error_local : forall (eps : R) (O : RoundOps) (a b c : C),
+  (0 <= eps <= / 100)%R -> a <> RtoC 0 -> quad_ops_ok eps O a b c ->
+  exists r0 r1 db dc : C, poly_solve (RoundRAo eps O) [c; b; a] false = Ok ([r0; r1], []) /\
+    (forall x : C, (a * x * x + (b + db) * x + (c + dc))%C = (a * (x - r0) * (x - r1))%C) /\
+    (Cmod dc <= (2 * eps + eps * eps) * Cmod c)%R /\
+    (Cmod db * Cmod db <= (16 * eps) * (16 * eps) * (Cmod b * Cmod b + 4 * (Cmod a * Cmod c)))%R.
+Print Assumptions quadratic_simultaneous_backward_error_local.
+
 (* the hypothesis is what excludes the range failures KF-C10-H: [flush_ops e] = the perturbing arithmetic whose Complex::sqrt returns 0
    for arguments of modulus <= 1 (the real Complex::sqrt does so below 1e-162, where re^2 + im^2 underflows).  On (x^2 - 3x + 2)/10
    (discriminant 0.01) quad_ops_ok FAILS -- 0 is within eps of no square root of a non-zero number --, the model returns
